@@ -91,3 +91,37 @@ package gocvss30
 //@   ensures[critical] (=> (= (ratingClass score) 4) (and (isnil result.1) (str= result.0 "CRITICAL")))
 //@   ensures[out_of_bounds] (=> (= (ratingClass score) (- 1)) (and (= result.1 ErrOutOfBoundsScore) (= (len result.0) 0)))
 //@   allocs 0
+
+// ---- scores (C03, C10, C11, C12); the post clauses are discharged by exhaustive case split ----
+
+//@ func (CVSS30).Impact(cvss30)
+//@   requires[wf] (wf30 cvss30)
+//@   ensures[spec] (<= (rabs (- (fp.to_real result) (impact30 cvss30))) 0.000000001)
+//@   allocs 0
+
+//@ func (CVSS30).Exploitability(cvss30)
+//@   requires[wf] (wf30 cvss30)
+//@   ensures[spec] (<= (rabs (- (fp.to_real result) (expl30 cvss30))) 0.000000001)
+//@   allocs 0
+
+//@ func (CVSS30).BaseScore(cvss30)
+//@   requires[wf] (wf30 cvss30)
+//@   inline Impact Exploitability
+//@   ensures[spec] (fp.eq result (tenth (base30K cvss30)))
+//@   ensures[one_decimal_in_scale] (exists-in (k 0 100) (fp.eq result (tenth k)))
+//@   ensures[rating_accepts] (>= (ratingClass result) 0)
+//@   allocs 0
+
+//@ func (CVSS30).TemporalScore(cvss30)
+//@   requires[wf] (wf30 cvss30)
+//@   ensures[spec] (fp.eq result (tenth (temporalFrom30 (base30K cvss30) cvss30)))
+//@   ensures[one_decimal_in_scale] (exists-in (k 0 100) (fp.eq result (tenth k)))
+//@   ensures[rating_accepts] (>= (ratingClass result) 0)
+//@   allocs 0
+
+//@ func (CVSS30).EnvironmentalScore(cvss30)
+//@   requires[wf] (wf30 cvss30)
+//@   ensures[spec] (fp.eq result (tenth (envFrom30 (envInner30K cvss30) cvss30)))
+//@   ensures[one_decimal_in_scale] (exists-in (k 0 100) (fp.eq result (tenth k)))
+//@   ensures[rating_accepts] (>= (ratingClass result) 0)
+//@   allocs 0
